@@ -43,6 +43,7 @@ def judge_req(ctx, cases, nontrivial, ex):
         elif ctx.cov["evaluations"] % 1700 == 1:
             ctx.sample({"pa": v["pa"], "pv": v["pv"], "observed": {k: o[k] for k in ("invoked", "status", "errname")}})
     ex.prepare([c["v"] for c, _ in pending])
+    hc.validate_cases(ctx, cases, "C04", skip_ids={c["id"] for c, _ in pending}, ex=ex)
     for c, what in pending:
         v, o = c["v"], c["obs"]
         if True:
@@ -73,6 +74,7 @@ def judge_res(ctx, cases, nontrivial, ex):
         if what:
             pending.append((c, what))
     ex.prepare([c["v"] for c, _ in pending])
+    hc.validate_cases(ctx, cases, "C04", skip_ids={c["id"] for c, _ in pending}, ex=ex)
     for c, what in pending:
         v, o = c["v"], c["obs"]
         if True:
@@ -92,7 +94,7 @@ def run(ctx):
                         "a zero value in a defaulted field may be read as unset: such requests are neither required to run nor to be rejected"]
     for d in ("validate.absent_collection_length", "param.empty_string_is_absent"):
         ctx.mc_expect_violation("mc/MC_HTTPTransport", consts={"Deviations": '{"%s"}' % d}, label="MC dev " + d)
-    frac = float(os.environ.get("VERIF_FRAC") or (0.2 if quick else 1.0))
+    frac = float(os.environ.get("VERIF_FRAC") or (0.06 if quick else 1.0))
     nontrivial = set()
     vectors = hc.sample_shapes(hc.gen_vectors(ctx, "req", 1, 1), frac, ctx.seed)
     cases, pl = hc.run_family(ctx, "req", vectors)
